@@ -77,7 +77,7 @@ def generate(p65, palt):
 
     def emit_tbl_proc():
         rw = ", ".join("?eq_%s" % n for n in sorted(set(pr65)) if n in done)
-        out.append("Lemma eq_tbl_proc : GenCpu65.tbl_proc = GenCpuAlt.tbl_proc.\nProof. unfold GenCpu65.tbl_proc, GenCpuAlt.tbl_proc. rewrite %s. reflexivity. Qed.\n" % rw)
+        out.append("Lemma eq_tbl_proc : GenCpu65.tbl_proc = GenCpuAlt.tbl_proc.\nProof. cbv delta [GenCpu65.tbl_proc GenCpuAlt.tbl_proc]. rewrite %s. reflexivity. Qed.\n" % rw)
         lemmas.append("eq_tbl_proc")
 
     helpers65 = " ".join("GenCpu65.%s" % n for n in unpaired65)
@@ -109,8 +109,9 @@ def generate(p65, palt):
         ex = ["GenCpu65." + c for c in closure(b65[n], o65, b65, d65) if c != n] + \
              ["GenCpuAlt." + c for c in closure(balt[m], oalt, balt, dalt) if c != m]
         rw_sem = ", ".join(["?eq_%s" % c for c in cs if c not in d65] + (["?eq_tbl_proc"] if uses_tbl_proc else []) + [table_rw])
-        out.append("Lemma eq_%s : GenCpu65.%s = GenCpuAlt.%s.\nProof.\n  first [ cpu_eq_syn ltac:(unfold %s) ltac:(rewrite %s)\n        | cpu_eq_bus ltac:(unfold %s) ltac:(rewrite %s) ltac:(%s) ].\nQed.\n"
-                   % (n, n, m, unf, rw, unf, rw_sem, ("repeat (progress unfold " + ", ".join(ex) + ")") if ex else "idtac"))
+        # delta only in the syntactic case: [unfold] also zeta-expands the continuations of the generated code (minutes on Step)
+        out.append("Lemma eq_%s : GenCpu65.%s = GenCpuAlt.%s.\nProof.\n  first [ cpu_eq_syn ltac:(cbv delta [GenCpu65.%s GenCpuAlt.%s]) ltac:(rewrite %s)\n        | cpu_eq_bus ltac:(unfold %s) ltac:(rewrite %s) ltac:(%s) ].\nQed.\n"
+                   % (n, n, m, n, m, rw, unf, rw_sem, ("repeat (progress unfold " + ", ".join(ex) + ")") if ex else "idtac"))
         done[n] = m
         lemmas.append("eq_" + n)
     if not tbl_proc_emitted:
